@@ -311,6 +311,42 @@ fn strip<'a>(s: &'a str, pre: &str, post: &str) -> Option<&'a str> {
     s.strip_prefix(pre)?.strip_suffix(post)
 }
 
+/// Last resort for the three value types without an accessor (IPv4, IPv6, Address) when their Debug / Display text is
+/// not in the shape the derived implementations give: the octets the value encodes itself to.
+fn obs_by_encoding(out: &mut String, v: &AvpValue) {
+    let mut b = Vec::new();
+    let r = match v {
+        AvpValue::Address(a) => a.encode_to(&mut b),
+        AvpValue::AddressIPv4(a) => a.encode_to(&mut b),
+        AvpValue::AddressIPv6(a) => a.encode_to(&mut b),
+        _ => return out.push_str("L ? ?"),
+    };
+    if r.is_err() {
+        return out.push_str("L ? ?");
+    }
+    match v {
+        AvpValue::AddressIPv4(_) if b.len() == 4 => {
+            out.push_str("L ip4 ");
+            hex(out, &b);
+        }
+        AvpValue::AddressIPv6(_) if b.len() == 16 => {
+            out.push_str("L ip6 ");
+            hex(out, &b);
+        }
+        AvpValue::Address(_) if b.len() >= 2 => {
+            let kind = match (b[0], b[1], b.len()) {
+                (0, 1, 6) => "a4",
+                (0, 2, 18) => "a6",
+                (0, 8, _) => "ae",
+                _ => return out.push_str("L addr ?"),
+            };
+            let _ = write!(out, "L {} ", kind);
+            hex(out, &b[2..]);
+        }
+        _ => out.push_str("L ? ?"),
+    }
+}
+
 /// Renders a value through public accessors; where a type has none (IPv4, IPv6, Address)
 /// through Debug (variant) and Display (payload).  Never through the encoder under test.
 pub fn obs_value(out: &mut String, v: &AvpValue) {
@@ -324,7 +360,7 @@ pub fn obs_value(out: &mut String, v: &AvpValue) {
                         out.push_str("L a4 ");
                         hex(out, &ip.octets());
                     }
-                    Err(_) => out.push_str("L a4 ?"),
+                    Err(_) => obs_by_encoding(out, v),
                 }
             } else if dbg.starts_with("Address(IPv6(") {
                 match Ipv6Addr::from_str(&disp) {
@@ -332,13 +368,13 @@ pub fn obs_value(out: &mut String, v: &AvpValue) {
                         out.push_str("L a6 ");
                         hex(out, &ip.octets());
                     }
-                    Err(_) => out.push_str("L a6 ?"),
+                    Err(_) => obs_by_encoding(out, v),
                 }
             } else if dbg.starts_with("Address(E164(") {
                 out.push_str("L ae ");
                 hex(out, disp.as_bytes());
             } else {
-                out.push_str("L addr ?");
+                obs_by_encoding(out, v);
             }
         }
         AvpValue::AddressIPv4(a) => {
@@ -348,7 +384,7 @@ pub fn obs_value(out: &mut String, v: &AvpValue) {
                     out.push_str("L ip4 ");
                     hex(out, &ip.octets());
                 }
-                None => out.push_str("L ip4 ?"),
+                None => obs_by_encoding(out, v),
             }
         }
         AvpValue::AddressIPv6(a) => {
@@ -358,7 +394,7 @@ pub fn obs_value(out: &mut String, v: &AvpValue) {
                     out.push_str("L ip6 ");
                     hex(out, &ip.octets());
                 }
-                None => out.push_str("L ip6 ?"),
+                None => obs_by_encoding(out, v),
             }
         }
         AvpValue::Identity(a) => {
@@ -436,14 +472,30 @@ pub fn obs_avp(out: &mut String, a: &Avp) {
     obs_value(out, a.get_value());
 }
 
+/// a writer that keeps the first octet handed to it and then refuses: the cheapest way to see octet 0 of an encoding
+struct FirstOctet(Option<u8>);
+impl std::io::Write for FirstOctet {
+    fn write(&mut self, b: &[u8]) -> std::io::Result<usize> {
+        if self.0.is_none() && !b.is_empty() {
+            self.0 = Some(b[0]);
+        }
+        Err(std::io::Error::new(std::io::ErrorKind::Other, "first octet taken"))
+    }
+    fn flush(&mut self) -> std::io::Result<()> {
+        Ok(())
+    }
+}
+
 pub fn obs_msg(out: &mut String, m: &DiameterMessage) {
-    // version is not exposed by an accessor: take it from the Display rendering,
-    // whose first token is the version number
-    let disp = format!("{}", m);
-    let ver = disp
-        .split(' ')
-        .next()
-        .and_then(|s| s.trim().parse::<u32>().ok());
+    // the version is not exposed by an accessor.  It is octet 0 of the message's encoding; if the encoder hands over
+    // nothing, the first token of the Display rendering is tried; otherwise it is reported as unobservable ("?")
+    // and not compared.  (Display / Debug text is not part of any property, so it is only a fallback.)
+    let mut fo = FirstOctet(None);
+    let _ = m.encode_to(&mut fo);
+    let ver = match fo.0 {
+        Some(b) => Some(b as u32),
+        None => format!("{}", m).split(' ').next().and_then(|s| s.trim().parse::<u32>().ok()),
+    };
     match ver {
         Some(v) => {
             let _ = write!(out, "M {:x}", v);
